@@ -67,21 +67,37 @@ Fixpoint first_alias (aliases : list ustr) (s : ustr) : option (ustr * ustr) :=
 
 Inductive rawt := RGiven | RWhen | RThen | RAnd | RBut.
 
-Fixpoint first_step_kw (kws : list ustr) (s low : ustr) : option ustr :=
-  match kws with
-  | [] => None
-  | k :: r => if prefixb k s || prefixb (kw_lower k) low then Some k else first_step_kw r s low
+(* _select_step_keyword: of all keywords the line starts with (as written, or both lower-cased), the longest one; among
+   equally long ones one that matches as written, else the first in scan order (given, when, then, and, but) *)
+Definition kw_matches (k s low : ustr) : bool := prefixb k s || prefixb (kw_lower k) low.
+
+Definition scan_order (kw : kwtable) : list (rawt * ustr) :=
+  map (fun k => (RGiven, k)) (k_given kw) ++ map (fun k => (RWhen, k)) (k_when kw) ++ map (fun k => (RThen, k)) (k_then kw) ++
+  map (fun k => (RAnd, k)) (k_and kw) ++ map (fun k => (RBut, k)) (k_but kw).
+
+(* rank = (length of the keyword, matches as written); a later candidate replaces the best one only with a greater rank *)
+Definition rank_lt (a b : nat * bool) : bool :=
+  Nat.ltb (fst a) (fst b) || (Nat.eqb (fst a) (fst b) && negb (snd a) && snd b).
+
+Fixpoint longest_match (cands : list (rawt * ustr)) (s low : ustr) (best : option (rawt * ustr * (nat * bool)))
+  : option (rawt * ustr * (nat * bool)) :=
+  match cands with
+  | [] => best
+  | (t, k) :: r =>
+      if kw_matches k s low
+      then let rk := (length k, prefixb k s) in
+           match best with
+           | Some (_, _, brk) => if rank_lt brk rk then longest_match r s low (Some (t, k, rk)) else longest_match r s low best
+           | None => longest_match r s low (Some (t, k, rk))
+           end
+      else longest_match r s low best
   end.
 
 Definition step_fact (kw : kwtable) (s : ustr) : option (rawt * ustr * ustr) :=
-  let low := kw_lower s in
-  let try := fun (t : rawt) (l : list ustr) => match first_step_kw l s low with
-                                                | Some k => Some (t, k, strip (skipn (length k) s))
-                                                | None => None end in
-  match try RGiven (k_given kw) with Some x => Some x | None =>
-  match try RWhen (k_when kw) with Some x => Some x | None =>
-  match try RThen (k_then kw) with Some x => Some x | None =>
-  match try RAnd (k_and kw) with Some x => Some x | None => try RBut (k_but kw) end end end end.
+  match longest_match (scan_order kw) s (kw_lower s) None with
+  | Some (t, k, _) => Some (t, k, strip (skipn (length k) s))
+  | None => None
+  end.
 
 Definition cp_hash : N := 35%N.
 Definition cp_at : N := 64%N.
@@ -619,19 +635,20 @@ Definition lang_table (language : option ustr) : option (ustr * kwtable) :=
   match find_lang code languages with Some k => Some (code, k) | None => None end.
 
 (* module-level parse_tags(text): every line that is not blank must be a tag line *)
+Definition first_is (c : N) (s : ustr) : bool := match s with x :: _ => N.eqb x c | [] => false end.
+
 Fixpoint parse_tag_lines (lines : list ustr) (n : nat) : res (list tag) :=
   match lines with
   | [] => ROk []
   | l :: r =>
-      match strip l with
-      | [] => parse_tag_lines r (S n)
-      | (64%N :: _) as s =>
-          match tag_words (split_ws s) n with
-          | Some ts => rbind (parse_tag_lines r (S n)) (fun rest => ROk (ts ++ rest))
-          | None => RErr n
-          end
-      | _ => RErr n
-      end
+      let s := strip l in
+      if match s with [] => true | _ => first_is cp_hash s end then parse_tag_lines r (S n)    (* blank and comment lines *)
+      else if first_is cp_at s
+           then match tag_words (split_ws s) n with
+                | Some ts => rbind (parse_tag_lines r (S n)) (fun rest => ROk (ts ++ rest))
+                | None => RErr n
+                end
+           else RErr n
   end.
 
 Definition dummy_scenario (kw : kwtable) : pscen :=
